@@ -34,7 +34,11 @@ DRIVER = "harness.adapters_c11:run_behaviour"
 CASES = ["ViaFiltered", "ViaFlood", "ViaForward", "ViaSamePort", "ViaFlow", "ViaDropFlow", "ViaOlderFlow",
          "ViaLink", "Move", "TickExpires", "TickKeeps",
          # a source that moved announces itself by a frame of each decision class while its flows are cached
-         "MvLldp", "MvFilt", "MvGroup", "MvUnknown", "MvSame", "MvFwd"]
+         "MvLldp", "MvFilt", "MvGroup", "MvUnknown", "MvSame", "MvFwd",
+         # Round 8, launch options: a flood held down / a known unicast forwarded during the hold-down / the
+         # hold-down running out or not at a Tick / link-local frames flooded and unicast by a transparent bridge
+         "ViaHeld", "HeldForward", "HoldExpires", "HoldGoesOn", "TranspFlood", "TranspUni"]
+_OPT = ["ViaHeld", "HeldForward", "HoldExpires", "HoldGoesOn", "TranspFlood", "TranspUni"]
 CLASSES = ["lldp", "filt", "group", "unknown", "same", "fwd"]
 
 AT = {
@@ -62,6 +66,9 @@ EXPORTS = {
         ("EX_paths_T2_d3.cfg", "H", "T2", "At2_3", 700),
         ("EX_edges_T1_d2.cfg", "T", "T1", "At1_3", 800),
         ("EX_edges_T3_d2.cfg", "T", "T3", "At3_5", 500),
+        # tag "O": behaviours printed with the launch options (hold-down, transparent) of their initial state
+        ("EX_edges_T1o_d2.cfg", "O", "T1", "At1_3", 700),
+        ("EX_edges_T2o_d2.cfg", "O", "T2", "At2_3", 250),
     ],
     "thorough": [
         ("MUT_T1r_delcN_d9.cfg", "W", "T1", "At1_2", None, MUT, 12, DEL),
@@ -82,27 +89,34 @@ EXPORTS = {
         ("EX_edges_T2_d3.cfg", "T", "T2", "At2_4", 8000),
         ("EX_edges_T3_d2.cfg", "T", "T3", "At3_5", None),
         ("EX_edges_T3_d3.cfg", "T", "T3", "At3_3", 8000),
+        ("EX_edges_T1o_d2.cfg", "O", "T1", "At1_3", None),
+        ("EX_edges_T1o_d3.cfg", "O", "T1", "At1_3", 12000),
+        ("EX_edges_T2o_d2.cfg", "O", "T2", "At2_3", None),
     ],
 }
 SIMS = {
     "quick": [("EX_sim60_T1.cfg", "T1", "At1_3", 16, 60), ("EX_sim60_T2.cfg", "T2", "At2_4", 12, 60),
-              ("EX_sim60_T3.cfg", "T3", "At3_5", 12, 60)],
+              ("EX_sim60_T3.cfg", "T3", "At3_5", 12, 60), ("EX_sim60_T1o.cfg", "T1", "At1_3", 9, 60)],
     "thorough": [("EX_sim200_T1.cfg", "T1", "At1_3", 250, 200), ("EX_sim200_T2.cfg", "T2", "At2_4", 200, 200),
-                 ("EX_sim200_T3.cfg", "T3", "At3_5", 200, 200)],
+                 ("EX_sim200_T3.cfg", "T3", "At3_5", 200, 200), ("EX_sim60_T1o.cfg", "T1", "At1_3", 150, 60)],
 }
 MODELS = {
     "quick": [("MC_T1_d3.cfg", "T1: 3 hosts, destinations host|unknown|broadcast|filtered, shapes a/l, gaps 11/31, histories <= 4"),
               ("MC_T1r_d6.cfg", "T1 re-plug family: two hosts, one re-plugged between all three ports, every "
                                 "destination class and LLDP from both, histories <= 7"),
               ("MC_T2_d2.cfg", "T2: 2 switches, 3 hosts, histories <= 3"),
-              ("MC_T3_d2.cfg", "T3: 3 switches, 3 hosts, histories <= 3")],
+              ("MC_T3_d2.cfg", "T3: 3 switches, 3 hosts, histories <= 3"),
+              ("MC_T1o_d3.cfg", "T1 launch options: hold-down 11 s and / or transparent, 2 hosts, every destination "
+                                "class, shapes a/l, gaps 5/11/31, histories <= 4")],
     "thorough": [("MC_T1_d4.cfg", "T1: 3 hosts, all destination classes, shapes a/l, gaps 11/31, histories <= 5"),
                  ("MC_T1same_d4.cfg", "T1: 2 hosts behind one port, shapes a/b/l, histories <= 5"),
                  ("MC_T1m_d7.cfg", "T1: two hosts in conversation, one moving between two ports, histories <= 8"),
                  ("MC_T1r_d7.cfg", "T1 re-plug family: two hosts, one re-plugged between all three ports, every "
                                    "destination class and LLDP from both, histories <= 8"),
                  ("MC_T2_d4.cfg", "T2: 2 switches, 3 hosts, histories <= 5"),
-                 ("MC_T3_d4.cfg", "T3: 3 switches, 3 hosts, histories <= 5")],
+                 ("MC_T3_d4.cfg", "T3: 3 switches, 3 hosts, histories <= 5"),
+                 ("MC_T1o_d4.cfg", "T1 launch options: hold-down 11 s and / or transparent, 2 hosts, every "
+                                   "destination class, shapes a/l, gaps 5/11/31, histories <= 5")],
 }
 
 
@@ -110,7 +124,7 @@ MODELS = {
 # cases a model run must exercise by itself (default: ViaFlood, ViaForward, ViaFlow, Move); the union of the
 # tier's runs must exercise all CASES
 _MV = ["ViaOlderFlow", "MvLldp", "MvFilt", "MvGroup", "MvUnknown", "MvSame", "MvFwd", "Move"]
-PER_MODEL = {"MC_T1r_d6.cfg": _MV, "MC_T1r_d7.cfg": _MV}
+PER_MODEL = {"MC_T1r_d6.cfg": _MV, "MC_T1r_d7.cfg": _MV, "MC_T1o_d3.cfg": _OPT, "MC_T1o_d4.cfg": _OPT}
 
 
 def _narrow(beh):
@@ -251,8 +265,16 @@ def _validate(topo, traces, tag):
 def _corrupt(trace, kind):
   """negative controls: one observation of an accepted execution falsified."""
   tr = copy.deepcopy(trace)
+  hold = transp = up = 0
   for e in tr:
+    if e["a"] == "At":
+      hold, transp = e["args"].get("hold", 0), e["args"].get("transp", False)
+    if e["a"] == "Tick":
+      up += e["args"]["d"]
+    held = up < hold
     if e["a"] != "Send":
+      continue
+    if held and kind in ("flood-minus-one",):
       continue
     for h in e["obs"]["hops"]:
       if kind == "flood-minus-one" and len(h["out"]) >= 2:
@@ -271,7 +293,18 @@ def _corrupt(trace, kind):
           and e["args"]["sh"] != "l":
         h["out"] = [p for p in (1, 2, 3) if p not in (h["i"], h["out"][0])][:1]
         return tr
-      if kind == "filtered-forwarded" and (e["args"]["dst"] == 93 or e["args"]["sh"] == "l"):
+      if kind == "flooded-during-hold-down" and held and h["pktin"] == 1 and not h["out"] \
+          and (e["args"]["dst"] in (90, 91, 92) and (transp or e["args"]["sh"] != "l")):
+        h["out"] = [p for p in (1, 2, 3) if p != h["i"]]
+        return tr
+      if kind == "buffer-left-during-hold-down" and held and h["pktin"] == 1 and not h["out"]:
+        h["buf"] = 1
+        return tr
+      if kind == "link-local-dropped-by-transparent" and transp and h["out"] and h["pktin"] == 1 \
+          and (e["args"]["dst"] == 93 or e["args"]["sh"] == "l"):
+        h["out"] = []
+        return tr
+      if kind == "filtered-forwarded" and not transp and (e["args"]["dst"] == 93 or e["args"]["sh"] == "l"):
         h["out"] = [p for p in (1, 2, 3) if p != h["i"]]
         return tr
   return None
@@ -279,6 +312,8 @@ def _corrupt(trace, kind):
 
 NEG_KINDS = ["flood-minus-one", "back-out-ingress", "delivered-twice", "buffer-left", "wrong-port",
              "filtered-forwarded"]
+# controls of the option dimension (must be rejected wherever an execution with these options exists: T1, T2)
+NEG_OPT = ["flooded-during-hold-down", "buffer-left-during-hold-down", "link-local-dropped-by-transparent"]
 
 
 def run(ctx):
@@ -301,7 +336,8 @@ def run(ctx):
       "wire, buffer occupancy from SoftwareSwitch._packet_buffer",
       "frames and the decoding of all OpenFlow messages use struct only (harness/rawbytes.py, c11_netsim.py)",
       "switches have no automatic expiry timer: expiry happens when the input sequence says Tick(d, sweep)",
-      "controller options: hold-down 0, transparent=False; topologies with loops are out of the component's contract",
+      "controller launch options: hold_down in {0, 11 s}, transparent in {False, True} (given as int / bool or as "
+      "command-line strings); `ignore` not used; topologies with loops are out of the component's contract",
   ]
 
   # ---- 1. the property on the model
@@ -381,6 +417,10 @@ def run(ctx):
     if not behs:
       raise tlc.TLCError("no behaviours exported by %s" % cfg)
     muts = None
+    opts = None
+    if tag == "O":
+      opts = [dict(hold=w["opt"]["hold"], transp=bool(w["opt"]["transp"])) for w in behs]
+      behs = [w["hist"] for w in behs]
     if tag == "W":
       # witness histories of mutant designs: each mutant must break the property somewhere in the bounded
       # family (a mutant without a witness = a dimension of the spec that the run does not exercise)
@@ -404,14 +444,23 @@ def run(ctx):
         it = dict(topo=topo, at=AT[at], steps=_norm_steps(behs[j]), src=cfg)
         if muts is not None:
           it["mutant"] = muts[j]
+        if opts is not None:
+          it["opt"] = opts[j]
         items.append(it)
   for (cfg, topo, at, num, depth), r in zip(sims, res[nm:nm + ns_]):
     behs = r.tagged("H")
+    opts = None
+    if not behs:
+      opts = r.tagged("O")
+      behs = [w["hist"] for w in opts]
     if len(behs) < num // 2:
       raise tlc.TLCError("simulation %s exported only %d behaviours" % (cfg, len(behs)))
     per_export[cfg] = dict(exported=len(behs), used=len(behs), depth=depth)
-    for b in behs:
-      items.append(dict(topo=topo, at=AT[at], steps=_norm_steps(b), src=cfg))
+    for j, b in enumerate(behs):
+      it = dict(topo=topo, at=AT[at], steps=_norm_steps(b), src=cfg)
+      if opts:
+        it["opt"] = dict(hold=opts[j]["opt"]["hold"], transp=bool(opts[j]["opt"]["transp"]))
+      items.append(it)
   nvar = 36 if quick else 216
   for k, it in enumerate(items):
     it["variant"] = (k * 7 + ctx.seed) % nvar
@@ -441,6 +490,8 @@ def run(ctx):
   chunks = []
   csize = 5000 if quick else 6000
   for topo, idx in sorted(by_topo.items()):
+    # (executions under launch options lead, so that the first chunk holds candidates for every negative control)
+    idx = [k for k in idx if items[k].get("opt")] + [k for k in idx if not items[k].get("opt")]
     for c in range(0, len(idx), csize):
       part = idx[c:c + csize]
       chunks.append((topo, part))
@@ -453,9 +504,11 @@ def run(ctx):
     # (executions of ordinary exported behaviours first: a witness history is where a broken tree misbehaves,
     #  and corrupting a wrong observation may make it right)
     cands = sorted(range(len(part)), key=lambda t: ("mutant" in items[part[t]], t))
-    for kind in NEG_KINDS:
+    for kind in NEG_KINDS + NEG_OPT:
       for t in cands:
         k = part[t]
+        if kind in NEG_OPT and not items[k].get("opt"):
+          continue
         if all(e["wf"] for e in out[k]["trace"]):
           bad = _corrupt(out[k]["trace"], kind)
           if bad is not None:
@@ -509,6 +562,9 @@ def run(ctx):
         sig["clauses"] = cl or ["unclassified"]
         sig["dst"] = dst_class(ev["args"]["dst"])
         sig["frame"] = "lldp" if ev["args"]["sh"] == "l" else "data"
+        if it.get("opt"):
+          sig["options"] = sorted(k for k, v in (("hold-down", it["opt"]["hold"]),
+                                                 ("transparent", it["opt"]["transp"])) if v)
         sig["decided_by"] = sorted(set("controller" if d["pktin"] else "cached-flow" for d in dg)) or ["?"]
         if sig["dst"] == "host":
           # the classes of frame by which the destination announced itself when it appeared on a new port
@@ -517,7 +573,7 @@ def run(ctx):
       if "mutant" in it and ev["a"] == "Send" and ev["wf"] and any("want" in d for d in dg):
         want = {d["s"]: d["want"] for d in dg if "want" in d}
       ctx.report(sig, dict(adapter="harness.adapters_c11:ReplayAdapter",
-                           params=dict(topo=it["topo"], variant=it["variant"], at=it["at"]),
+                           params=dict(topo=it["topo"], variant=it["variant"], at=it["at"], opt=it.get("opt")),
                            behaviour=_replay_form(it["steps"], o["trace"], matched, want),
                            failing_step=matched - 1, world=o["world"], source=it["src"],
                            witness_of_mutant=it.get("mutant"),
@@ -530,12 +586,15 @@ def run(ctx):
     #  the rejections themselves are the verdict then)
     if len(lst) < 4 and nrej == 0:
       raise tlc.TLCError("only %d negative controls could be built for %s" % (len(lst), topo))
+    if topo in ("T1", "T2") and nrej == 0 and [k for k in NEG_OPT if k not in [x[0] for x in lst]]:
+      raise tlc.TLCError("negative controls of the option dimension missing for %s: have %s"
+                         % (topo, [x[0] for x in lst]))
   ctx.traces += len(items)
   nsend = 0
   for it, o in zip(items, out):
     sends = sum(1 for s in it["steps"] if s["a"] == "Send")
     nsend += sends
-    ctx.case(core.fp([it["topo"], it["variant"], it["at"], [[s["a"], s["args"]] for s in it["steps"]]]),
+    ctx.case(core.fp([it["topo"], it["variant"], it["at"], it.get("opt"), [[s["a"], s["args"]] for s in it["steps"]]]),
              nontrivial=sends > 0,
              sample=dict(world=o["world"], execution=o["trace"][:4]) if len(it["steps"]) <= 4 else None)
   ctx.notes["trace_validation"] = dict(executions=len(items), frames_sent=nsend, rejected=nrej,
